@@ -128,6 +128,14 @@ fn parse_for_src(rw: &Rw, e: &Expr) -> Option<Src> {
     if let Some(s) = parse_src(e) {
         return Some(s);
     }
+    // configured slice-typed locals / parameters: `for x in name` iterates `name` by reference
+    if let Expr::Path(pp) = e {
+        if let Some(list) = rw.opts.extra.get("for_slices") {
+            if list.split(',').any(|g| pp.path.is_ident(g.trim())) {
+                return Some(Src::Iter(e.clone()));
+            }
+        }
+    }
     if let Expr::Reference(r) = e {
         if r.mutability.is_some() {
             return Some(Src::IterMut((*r.expr).clone()));
